@@ -155,11 +155,23 @@ class Effects:
                 al = cs.arg_local(1)
                 if al is None:
                     continue
-                for o in b.trace_local(al):
-                    if o[0] == 'rv' and o[2]['k'] == 'ref':
-                        fl = place_fields(o[2]['place'])
-                        if fl and fl[-1][0] == 'rolling::directory::Directory' and fl[-1][1] == 'dir':
-                            ok = True
+                # ... possibly through re-borrows and path views (`&*self.dir`, `self.dir.as_path()`, a `&Path` kept in a
+                # helper struct)
+                seen, work = set(), [al]
+                while work:
+                    l = work.pop()
+                    if l is None or l in seen:
+                        continue
+                    seen.add(l)
+                    for o in b.trace_local(l):
+                        if o[0] == 'rv' and o[2]['k'] == 'ref':
+                            fl = place_fields(o[2]['place'])
+                            if fl and fl[-1][0] == 'rolling::directory::Directory' and fl[-1][1] == 'dir':
+                                ok = True
+                            elif all(e['k'] == 'deref' for e in o[2]['place']['p']):
+                                work.append(o[2]['place']['l'])
+                        elif o[0] == 'call' and o[1].name.split('::')[-1].split('<')[0] in ('deref', 'as_path', 'as_ref', 'borrow', 'as_os_str') and o[1].args:
+                            work.append(o[1].arg_local(0))
             if ok:
                 res.add(b.id)
         self._dirsync_bodies = res
